@@ -27,6 +27,16 @@ def design_run(work, verdict, quick):
         "liveness": "Terminates", "wall_s": round(r.wall, 1),
         "negative_controls_refuted": refuted,
     }
+    if not quick and verdict.prop == "C01":
+        # unbounded part (thorough tier): Safety / UpstreamOnlyIfPositive / NoSwallow for pipelines of any
+        # length, any mix of steps and any error values, by TLAPS over PipelineCore!Step
+        import proofs
+        verdict.coverage["unbounded_proof"] = proofs.tlaps(
+            work, "PipelineProof", ["PipelineCore.tla"],
+            "Spec => [](Safety /\\ UpstreamOnlyIfPositive /\\ NoSwallow), items arbitrary (WellFormed), any length",
+            neg=("PipelineCore.tla", "  IF ~IsNone(s.pipeErr)\n  THEN [s EXCEPT !.retErr = s.pipeErr, !.pc = \"translate\"]",
+                 "  IF FALSE\n  THEN [s EXCEPT !.retErr = s.pipeErr, !.pc = \"translate\"]",
+                 "Finalize ignores the pipeline error"), threads=12, timeout=2400)
 
 
 def case_key(c):
